@@ -62,7 +62,7 @@ def converters(ctx: Ctx) -> None:
                     ctx.violation({**sig, "stage": "call"}, f"converter {ka}->{kb} raised {type(e).__name__}: {str(e)[:200]} on {vals}", {"shape": sh, "vals": vals})
                     continue
                 got = {fn: BY_NAME[kb].get(dst, fn) for fn in fields}
-                if got != vals or (not isinstance(dst, cb) if kb not in ("typeddict", "typeddict_total_false") else type(dst) is not dict):
+                if got != vals or (not isinstance(dst, cb) if BY_NAME[kb].tla != "typeddict" else type(dst) is not dict):
                     ctx.violation({**sig, "stage": "fields"}, f"converter {ka}->{kb}: fields {got} (type {type(dst).__name__}), source {vals}",
                                   {"shape": sh, "vals": vals, "got": repr(got)})
     ctx.replayed += n
@@ -86,6 +86,8 @@ def run(ctx: Ctx) -> None:
     unsupported: dict = {}
     for kind_tla in ("dataclass", "typeddict", "sqlalchemy"):
         kinds = [k.name for k in KINDS if k.tla == ("total" if kind_tla == "dataclass" else kind_tla) and k.name != "dataclass"]
+        if thorough:
+            kinds = ["*"] + kinds          # every variant spelling on every program
         total = run_slices(ctx, slices, mo, twins=False, kind_tla=kind_tla, kinds=kinds, every=every, invs=["KindsUniform"] if kind_tla == "dataclass" else None)
         for k, v in total["by_kind"].items():
             by_kind[k] = by_kind.get(k, 0) + v
@@ -98,7 +100,7 @@ def run(ctx: Ctx) -> None:
                                **{k: f[k] for k in ("probe", "py_datum", "dt") if k in f}})
     ctx.extra["programs_by_kind"] = by_kind
     ctx.extra["unsupported"] = unsupported
-    if not by_kind or min(by_kind.values()) == 0 or len(by_kind) < 6:
+    if not by_kind or min(by_kind.values()) == 0 or len(by_kind) < 12:
         raise MachineryError(f"a model kind was never exercised: {by_kind}")
     converters(ctx)
     ctx.exhaustive = thorough
